@@ -51,10 +51,12 @@ CHECKS = {
           'fresh object with the new value; caller arrays are read-only in the executor (a write is a frame violation); Panel.lb/freq are executed with the matrix '
           'methods replaced by contracts that tag each matrix with the definition it was computed from, so the eigenproblem handed to the solver is proved '
           'to be that of the current definition in every tested history.  ConeCyl (calc_k0, calc_fext, _calc_linear_matrices, calc_kT, calc_fint) is put through '
-          'the same three clauses with kernel stubs that carry their arguments (attributes r2, H, alphadeg, plyt, Fc, P).'),
+          'the same three clauses with kernel stubs that carry their arguments (attributes r2, H, alphadeg, plyt, Fc, P).  PanelAssembly (calc_k0, calc_kG0, '
+          'calc_kM, get_k0_conn with and without finalize) and StiffPanelBay (calc_k0, calc_kG0, calc_kM, calc_kA, get_size; skin cut in two, one 2-D blade stiffener '
+          'built by the real add_* methods) are put through the first-request and order clauses for all ordered pairs.'),
     design_ref='DESIGN.md section 4 (C20)',
     note=('histories of length <= 3 over the listed methods (bounded in length, symbolic in all data); kernels/field functions assumed pure (thread-count independence of the compiled field wrappers is proved in C11); '
-          'PanelAssembly/StiffPanelBay histories and plotting are not yet covered; 8 known findings (cached plyts), 1 fixed defect'),
+          'change clause for assemblies/bays and plotting are not covered; 8 known findings (cached plyts), 1 fixed defect'),
     technique='effect contracts + symbolic execution; structural comparison of result terms'),
  'C12': dict(
     category='proof',
